@@ -12,9 +12,20 @@ import (
 
 func c08Counts(tier string) (bulk, large int) {
 	if tier == "thorough" {
-		return 3000, 24
+		return 3000, 24 + 2*len(c08Sizes(tier))
 	}
-	return 260, 4
+	return 260, 4 + 2*len(c08Sizes(tier))
+}
+
+// c08Sizes: number of points of one shape / stop times of one trip, swept over the threshold list.
+func c08Sizes(tier string) []int {
+	var out []int
+	for _, n := range core.Thresholds(70000) {
+		if n >= 100 && (tier == "thorough" || n <= 4200 || n >= 65535) {
+			out = append(out, n)
+		}
+	}
+	return out
 }
 
 func init() {
@@ -42,7 +53,17 @@ func runC08(c *core.Ctx) {
 		sz.Trips, sz.StopTimesPer = 6, 12
 	}
 	orders := sgen.RowOrders
-	if c.Index < nLarge {
+	if sizes := c08Sizes(c.Tier); c.Index < 2*len(sizes) {
+		n := sizes[c.Index/2]
+		sz = sgen.Size{Agencies: 1, Routes: 1, Stops: 5, Transfers: 0, Calendars: 1, CalDates: 0, Shapes: 2, ShapePtsPer: 3, Trips: 2, Freqs: 0, StopTimesPer: 3, Exact: true}
+		if c.Index%2 == 0 {
+			sz.ShapePtsPer = n
+		} else {
+			sz.StopTimesPer = n
+		}
+		orders = []string{"as-generated", "shuffled", "round-robin"}
+		c.Feature("size-sweep")
+	} else if c.Index < nLarge {
 		sz = sgen.Size{Agencies: 1, Routes: 5, Stops: 200, Transfers: 5, Calendars: 3, CalDates: 5, Shapes: 20, ShapePtsPer: 500, Trips: 500, Freqs: 5, StopTimesPer: 100, Exact: true}
 		orders = []string{"as-generated", "round-robin", "shuffled", "reversed"}
 		c.Feature("large-interleaving")
